@@ -79,3 +79,34 @@ func prodSame(a, b *Message) string {
 	}
 	return ""
 }
+
+// prodEqualR compares a decoded product message with the independent reader's
+// view of the same bytes (saved inputs have no abstract message).
+func prodEqualR(exp *RMsg, got *Message) string {
+	if got == nil {
+		return "no message decoded"
+	}
+	sl := ""
+	if got.request != nil {
+		sl = got.request.method + " " + got.request.requestURI.String() + " " + got.request.version
+	} else if got.response != nil {
+		sl = fmt.Sprintf("%s %d %s", got.response.version, got.response.statusCode, got.response.reason)
+	}
+	if sl != exp.Start {
+		return fmt.Sprintf("start line %q, want %q", sl, exp.Start)
+	}
+	if len(got.headers) != len(exp.Hdrs) {
+		return fmt.Sprintf("%d headers decoded, want %d", len(got.headers), len(exp.Hdrs))
+	}
+	for i, h := range exp.Hdrs {
+		g := got.headers[i]
+		gv := fmt.Sprintf("%v", g.value)
+		if g.name != h.Name || strings.Trim(gv, " \t") != strings.Trim(h.Value, " \t") {
+			return fmt.Sprintf("header %d: %q: %s, want %q: %s", i, g.name, jsonBytes([]byte(gv)), h.Name, jsonBytes([]byte(h.Value)))
+		}
+	}
+	if !bytes.Equal(got.body, exp.Body) {
+		return fmt.Sprintf("body of %d bytes %s, want %d bytes %s", len(got.body), jsonBytes(got.body), len(exp.Body), jsonBytes(exp.Body))
+	}
+	return ""
+}
